@@ -12,7 +12,8 @@
    404/405).  The specification side of the lookup judges is [expect] over the
    list of declarations the IMPLEMENTATION accepted, so it does not depend on
    the model's own registration verdicts. *)
-From DS Require Import Base Versions Router RouterSpec Pct Utf8 PathNorm Register.
+From DS Require Import Base Versions Router RouterSpec Pct Utf8 PathNorm Register Route Pipeline.
+From DS Require Semver.
 
 Definition V_AGREE : N := 0.
 Definition V_VIOLATION : N := 1.
@@ -39,7 +40,12 @@ Inductive rcase :=
   (* one registration on an empty API with a tag policy: the validators of
      ApiDescription::register (C02) *)
 | CReg (policy : N) (allow_other : bool) (known : list str) (visible : bool) (tags : list str)
-       (path : str) (params : list (N * str * ps)) (dfs : list (str * ps)) (code : N).
+       (path : str) (params : list (N * str * ps)) (dfs : list (str * ps)) (code : N)
+  (* a table behind a real server under a version policy (pmax: None =
+     unversioned, Some i = header policy with max_version chain[i]); requests
+     (path, method, version header as the policy sees it) and what came back *)
+| CPipe (chain : list str) (eps : list (str * ep)) (codes : list N) (pmax : option N) (started : bool)
+        (reqs : list (str * str * hdr)) (os : list obs).
 
 (* panic classes as the harness numbers them (rest-name and var-name share a
    message in router.rs, hence a code) *)
@@ -260,6 +266,7 @@ Definition judge_reg (policy : N) (allow_other : bool) (known : list str) (visib
 
 Definition judge_detail_c02 (c : rcase) : list N :=
   match c with
+  | CPipe _ _ _ _ _ _ _ => []
   | CReg policy allow_other known visible tags path params dfs code =>
       [judge_reg policy allow_other known visible tags path params dfs code]
   | CTable eps codes paths methods versions os =>
@@ -278,8 +285,97 @@ Definition judge_detail_c02 (c : rcase) : list N :=
         end
   end.
 
+(* ---- the request pipeline (Pipeline.v) ----
+   The chain is a strictly increasing list of semver versions; ranges carry
+   chain indices.  The model is instantiated at V := N through an order
+   embedding of all versions into N relative to the chain: chain[i] |-> 2i+1,
+   a version strictly between two chain elements |-> the even number between
+   their images (dropshot inspects versions only through comparisons with
+   range bounds and the policy's maximum, all of them chain elements). *)
+Definition vrank (chain : list Semver.version) (v : Semver.version) : N :=
+  2 * N.of_nat (length (filter (fun c => match Semver.cmp c v with Lt => true | _ => false end) chain))
+  + (if existsb (fun c => match Semver.cmp c v with Eq => true | _ => false end) chain then 1 else 0).
+Fixpoint parse_chain (chain : list str) : option (list Semver.version) :=
+  match chain with
+  | [] => Some []
+  | s :: rest => match Semver.parse s, parse_chain rest with
+                 | Some v, Some l => Some (v :: l)
+                 | _, _ => None
+                 end
+  end.
+Fixpoint strictly_inc (l : list Semver.version) : bool :=
+  match l with
+  | a :: ((b :: _) as t) => match Semver.cmp a b with Lt => strictly_inc t | _ => false end
+  | _ => true
+  end.
+Definition lift_idx (i : N) : N := 2 * i + 1.
+Definition lift_decl (d : decl N) : decl N :=
+  (fst d, mkEp (e_id (snd d)) (e_method (snd d)) (map_range lift_idx (e_versions (snd d)))
+               (e_ctype (snd d)) (e_maxbytes (snd d)) (e_visible (snd d))).
+
+Definition judge_pipe_req (which : N) (pol : policy N) (parse : str -> option N)
+           (acc : list (decl N)) (r : option (node N)) (q : str * str * hdr) (o : obs) : N :=
+  let '(p, m, h) := q in
+  (* the property, read off the declared table: the policy decides first *)
+  match request_version N ncmp parse pol h with
+  | Err _ =>
+      (* C05: a missing / unparsable / too-new version: 400-level, no handler *)
+      match o with
+      | O400 => V_AGREE
+      | OErr st => if (400 <=? st) && (st <? 500) then V_DIVERGE else V_VIOLATION
+      | _ => V_VIOLATION
+      end
+  | Ok ov =>
+      match input_segments p with
+      | Err _ => if which =? 1 then (if is_found o then V_VIOLATION else V_AGREE)
+                 else (match o with O400 => V_AGREE | _ => V_VIOLATION end)
+      | Ok segs =>
+          let x := expect N ncmp acc m segs ov in
+          let relevant := if which =? 1 then is_found o || x_found x
+                          else negb (is_found o && x_found x) in
+          if negb relevant then V_AGREE
+          else if obs_is_expected o x then
+            match r with
+            | Some r =>
+                match handle N ncmp parse pol r m p h, o with
+                | HInvoke e vs _, OFound _ _ _ _ => if obs_is_outcome o (Found e vs) then V_AGREE else V_DIVERGE
+                | HNotFound, O404 => V_AGREE
+                | HNotAllowed a, O405 a' => if list_eqb str_eqb a' a then V_AGREE else V_DIVERGE
+                | _, _ => V_DIVERGE
+                end
+            | None => V_AGREE
+            end
+          else V_VIOLATION
+      end
+  end.
+
+Fixpoint judge_pipe_reqs which pol parse acc r (qs : list (str * str * hdr)) (os : list obs) : list N :=
+  match qs, os with
+  | q :: qs', o :: os' => judge_pipe_req which pol parse acc r q o :: judge_pipe_reqs which pol parse acc r qs' os'
+  | [], [] => []
+  | _, _ => [V_MALFORMED]
+  end.
+
+Definition judge_pipe (which : N) (chain : list str) (eps : list (str * ep)) (codes : list N)
+           (pmax : option N) (started : bool) (reqs : list (str * str * hdr)) (os : list obs) : list N :=
+  match parse_chain chain, accepted_impl eps codes with
+  | Some vs, Some acc0 =>
+      if negb (strictly_inc vs) then [V_MALFORMED] else
+      let acc := map lift_decl acc0 in
+      let pol := match pmax with None => PUnversioned | Some i => PHeader (lift_idx i) end in
+      let parse := fun s => option_map (vrank vs) (Semver.parse s) in
+      (* server start: an unversioned policy over a version-restricted table is refused *)
+      if negb (bool_eqb started (starts N pol acc)) then [V_VIOLATION]
+      else if negb started then (match os with [] => [V_AGREE] | _ => [V_MALFORMED] end)
+      else
+        let r := match build N ncmp acc with Ok r => Some r | Err _ => None end in
+        judge_pipe_reqs which pol parse acc r reqs os
+  | _, _ => [V_MALFORMED]
+  end.
+
 Definition judge_detail_lookups (which : N) (c : rcase) : list N :=
   match c with
+  | CPipe chain eps codes pmax started reqs os => judge_pipe which chain eps codes pmax started reqs os
   | CReg _ _ _ _ _ _ _ _ _ => []
   | CTable eps codes paths methods versions os =>
       match os with
